@@ -166,6 +166,20 @@ func (w *W) exec(task int, op *scen.Op) {
 	case "pkg_reset_level":
 		slog.ResetLevel()
 		return
+	case "pkg_save_level":
+		w.restores = append(w.restores, slog.SaveLevelAndSet(slog.Level(op.Lvl)))
+		return
+	case "pkg_restore_level":
+		if n := len(w.restores); n > 0 {
+			w.restores[n-1]()
+			w.restores = w.restores[:n-1]
+		}
+		return
+	case "set_default":
+		if l := w.logger(op.L); l != nil {
+			slog.SetDefault(l)
+		}
+		return
 	case "pkg_get_level":
 		w.ret(task, map[string]int{"level": int(slog.GetLevel())})
 		return
@@ -193,10 +207,10 @@ func (w *W) exec(task int, op *scen.Op) {
 		}
 		return
 	case "add_path":
-		slog.AddKnownPathMapping(op.Name, op.Msg)
+		slog.AddKnownPathMapping(expandSrc(op.Name), op.Msg)
 		return
 	case "remove_path":
-		slog.RemoveKnownPathMapping(op.Name)
+		slog.RemoveKnownPathMapping(expandSrc(op.Name))
 		return
 	case "reset_paths":
 		slog.ResetKnownPathMapping()
@@ -211,10 +225,15 @@ func (w *W) exec(task int, op *scen.Op) {
 		slog.ResetKnownPathRegexpMapping()
 		return
 	case "safety":
-		w.ret(task, map[string]any{"q": op.Name, "r": slog.Safety(op.Name)})
+		q := expandSrc(op.Name)
+		w.ret(task, map[string]any{"q": q, "r": slog.Safety(q)})
 		return
 	case "safety_files":
-		w.ret(task, map[string]any{"q": op.S, "r": slog.SafetyFiles(op.S)})
+		qs := make([]string, len(op.S))
+		for i, q := range op.S {
+			qs[i] = expandSrc(q)
+		}
+		w.ret(task, map[string]any{"q": qs, "r": slog.SafetyFiles(qs)})
 		return
 	case "pkg_with_skip":
 		res := slog.WithSkip(int(op.I))
@@ -275,7 +294,11 @@ func (w *W) exec(task int, op *scen.Op) {
 		case "args":
 			res = l.With(w.args(op.Args)...)
 		case "skip":
-			res = l.WithSkip(int(op.I))
+			if op.Name == "pkg" && op.L == 0 {
+				res = slog.WithSkip(int(op.I)) // package-level form, acts on the default logger
+			} else {
+				res = l.WithSkip(int(op.I))
+			}
 		case "ctxkeys":
 			res = l.WithContextKeys(w.ctxKeys(op.Keys)...)
 		case "writer":
@@ -309,7 +332,11 @@ func (w *W) exec(task int, op *scen.Op) {
 		case "args":
 			res = l.Set(w.args(op.Args)...)
 		case "skip":
-			l.SetSkip(int(op.I))
+			if op.Name == "pkg" && op.L == 0 {
+				slog.SetSkip(int(op.I))
+			} else {
+				l.SetSkip(int(op.I))
+			}
 			hasRes = false
 		case "ctxkeys":
 			res = l.SetContextKeys(w.ctxKeys(op.Keys)...)
@@ -370,6 +397,12 @@ func (w *W) exec(task int, op *scen.Op) {
 		var vs []visit
 		l.Each(func(e *slog.Entry, depth int) { vs = append(vs, visit{w.idOfEntry(e), depth}) })
 		w.ret(task, vs)
+	case "get_writer_by":
+		// write a payload straight through the writer the logger looks up for a severity
+		lw := l.GetWriterBy(slog.Level(op.Lvl))
+		if lw != nil {
+			_, _ = lw.Write([]byte(op.Msg + "\n"))
+		}
 	case "enabled":
 		w.ret(task, map[string]bool{
 			"enabled":     l.Enabled(slog.Level(op.Lvl)),
